@@ -291,7 +291,10 @@ func (g *gen) histFill() {
 	}
 	const hdr = 42
 	used := int64(0) // bytes used in the active segment, as the driver computes it
-	gaps := []int64{0, 0, 1, 2, 41, 42, 43, 44, 45, 46, 47}
+	gaps := []int64{0, 0, 1, 2, 41, 42, 43, 44, 45, 46, 47, 60, 70}
+	fobs := hx.NewFSObs(dir)
+	defer fobs.Uninstall()
+	fobs.KeepData = false
 	put := func(k string, vlen int64) {
 		v := make([]byte, vlen)
 		for i := range v {
@@ -329,6 +332,21 @@ func (g *gen) histFill() {
 			put(k, vlen)
 			if used == seg-gap {
 				break
+			}
+		}
+		// a record torn by a failing write at the tail of the segment, then a
+		// commit that does not fit and rotates: the torn record stays at the
+		// end of a file that is no longer the last one
+		if room := seg - used; room >= hdr+3 && g.r.Intn(2) == 0 {
+			t, err := g.s.Begin(true)
+			if err == nil {
+				t.Put("b1", []byte("c"), []byte{}, 0) // 45 bytes: fits
+				partial := 1 + g.r.Intn(hdr+2)
+				fobs.Fault = func(m *hx.Mut) (bool, int) { return m.Op == "write", partial }
+				fobs.ResetCounters()
+				t.Commit(func() int { return fobs.DatWrites })
+				fobs.Fault = nil
+				put(pick(g.r, kvKeys), room) // needs more than what is left
 			}
 		}
 		// the next entry: empty value, or one that needs more than the gap
